@@ -101,7 +101,9 @@ def gen_cases(tier, seed):
         else:
             c.update(cell=cells[(i // len(KINDS)) % len(cells)], geo=GEOS[int(rng.integers(len(GEOS)))],
                      spread=int(rng.choice([0, 1, 1, 3, 10, 50] + ([200] if wide else []))), perframe=bool(rng.random() < 0.3),
-                     mixed=bool(rng.random() < 0.15), n_frames=int(rng.integers(1, 9 if wide else 5)),
+                     mixed=bool(rng.random() < 0.15),
+                     # mostly few frames; every 12th value case is a long trajectory (kernels may block / chunk the frame loop)
+                     n_frames=(int(rng.choice([129, 200, 257, 300])) if (i // len(KINDS)) % 12 == 5 else int(rng.integers(1, 9 if wide else 5))),
                      n_atoms=int(rng.integers(4, 65 if wide else 33)), idx=int(rng.integers(0, 4)), wide=wide)
         yield c
 
